@@ -8,8 +8,105 @@ import (
 // GenSpec draws a cluster with nearly full nodes, running jobs around their gang minimum,
 // starving jobs of mixed priorities, queues around their share, and a random tier layout of
 // the four voting plugins.
+func newSpec() Spec {
+	return Spec{PGPhase: map[int64]int64{}, JPrio: map[int64]int64{}, JSys: map[int64]bool{}, TClass: map[int64]int64{}, QRecl: map[int64]int64{},
+		QGuar: map[int64][2]int64{}, QDes: map[int64][2]int64{}}
+}
+
+// GenCapStage: the capacity plugin at its guarantee / deserved boundaries.  Victim queue q1 runs k equal pods
+// on node n1 (full); q3 (not reclaimable) fills n2 so that the cluster is large enough for q2's
+// realCapability; q2's pending pod needs 1..3 victims; q1's guarantee (cpu only, or cpu and memory) lies
+// around "k-1 pods" / "k-2 pods"; q1's deserved is unset, low, or above its allocation in one dimension.
+func GenCapStage(r *vh.Rng) Spec {
+	spec := newSpec()
+	k := int64(r.Range(2, 5))
+	c := int64(r.Range(1, 4)) * 500
+	m := int64(r.Range(1, 4)) << 20
+	need := int64(r.Range(1, 3))
+	if need > k {
+		need = k
+	}
+	big := int64(r.Range(4, 12)) * 1000
+	spec.Nodes = []sched.NodeSpec{
+		{ID: 1, Has: true, CPU: k*c + vh.Pick(r, []int64{0, 0, 250}), Mem: k*m + vh.Pick(r, []int64{0, 1 << 19}), Pods: k + 3},
+		{ID: 2, Has: true, CPU: big, Mem: 64 << 20, Pods: 4}}
+	for q := int64(1); q <= 3; q++ {
+		spec.Queues = append(spec.Queues, sched.QueueSpec{ID: q, Open: true, Weight: 1})
+	}
+	spec.QRecl[1] = vh.Pick(r, []int64{0, 1})
+	spec.QRecl[2] = 1
+	spec.QRecl[3] = 2
+	// guarantee of q1 around the boundary
+	left := k - need // pods left if all needed victims go
+	gc := vh.Pick(r, []int64{left * c, left*c + 250, (left + 1) * c, (left+1)*c - 250, (left+1)*c + 250, 0, (k - 1) * c, k * c})
+	if gc < 0 {
+		gc = 0
+	}
+	gm := int64(0)
+	if r.Chance(1, 4) {
+		gm = vh.Pick(r, []int64{left * m, (left + 1) * m, (k - 1) * m})
+	}
+	spec.QGuar[1] = [2]int64{gc, gm}
+	spec.QDes[1] = [2]int64{vh.Pick(r, []int64{0, 0, c, k * c, k*c + 1000, (k - 1) * c}), vh.Pick(r, []int64{0, 0, m, k * m, (k + 2) * m})}
+	spec.QDes[2] = [2]int64{vh.Pick(r, []int64{need * c, need*c + 1000, 4 * need * c, 0}), vh.Pick(r, []int64{need * m, 8 * need * m, 0})}
+	spec.QDes[3] = [2]int64{big, 64 << 20}
+	tid := int64(0)
+	// job 1: the victims
+	spec.Jobs = append(spec.Jobs, sched.JobSpec{ID: 1, Queue: 1, Min: vh.Pick(r, []int64{0, 0, 1, k - 1})})
+	spec.PGPhase[1] = 3
+	for i := int64(0); i < k; i++ {
+		tid++
+		spec.Tasks = append(spec.Tasks, sched.TaskSpec{ID: tid, Job: 1, Role: 1, Prio: int64(r.Range(0, 1)), CPU: c, Mem: m, Status: sched.SRunning, Node: 1, Preemptable: !r.Chance(1, 10)})
+	}
+	// job 2: the reclaimer
+	spec.Jobs = append(spec.Jobs, sched.JobSpec{ID: 2, Queue: 2, Min: 1})
+	spec.PGPhase[2] = 3
+	spec.JPrio[2] = 2
+	tid++
+	spec.Tasks = append(spec.Tasks, sched.TaskSpec{ID: tid, Job: 2, Role: 1, Prio: 1, CPU: need*c - vh.Pick(r, []int64{0, 0, 250}), Mem: vh.Pick(r, []int64{need * m, m, 0}), Status: sched.SPending, Preemptable: true})
+	if r.Chance(1, 3) {
+		tid++
+		spec.Tasks = append(spec.Tasks, sched.TaskSpec{ID: tid, Job: 2, Role: 1, Prio: 0, CPU: c, Mem: m, Status: sched.SPending, Preemptable: true})
+	}
+	// job 3: fills node 2, queue q3 is not reclaimable
+	spec.Jobs = append(spec.Jobs, sched.JobSpec{ID: 3, Queue: 3, Min: 0})
+	spec.PGPhase[3] = 3
+	tid++
+	spec.Tasks = append(spec.Tasks, sched.TaskSpec{ID: tid, Job: 3, Role: 1, CPU: big, Mem: 32 << 20, Status: sched.SRunning, Node: 2, Preemptable: true})
+	spec.Tiers = [][]Plug{{{Kind: KGang, Pre: true, Rec: true}, {Kind: KCap, Pre: true, Rec: true}}}
+	if r.Chance(1, 3) {
+		spec.Tiers[0] = append(spec.Tiers[0], Plug{Kind: KConf, Pre: true, Rec: true})
+	}
+	spec.Actions = []int64{2}
+	return spec
+}
+
+// CapGapWitness: the fixed cluster of CapLemmas.above_deserved_in_every_dimension_refuted on the real plugin:
+// queue q1 holds cpu 1000m of deserved 4000m (far below) and memory 2Mi of deserved 1Mi (above); reclaim for a
+// pod of q2 evicts q1's only pod.
+func CapGapWitness() Spec {
+	spec := newSpec()
+	spec.Nodes = []sched.NodeSpec{{ID: 1, Has: true, CPU: 1000, Mem: 2 << 20, Pods: 4}, {ID: 2, Has: true, CPU: 8000, Mem: 64 << 20, Pods: 4}}
+	for q := int64(1); q <= 3; q++ {
+		spec.Queues = append(spec.Queues, sched.QueueSpec{ID: q, Open: true, Weight: 1})
+	}
+	spec.QRecl[3] = 2
+	spec.QDes[1] = [2]int64{4000, 1 << 20}
+	spec.QDes[2] = [2]int64{1000, 2 << 20}
+	spec.QDes[3] = [2]int64{8000, 64 << 20}
+	spec.Jobs = []sched.JobSpec{{ID: 1, Queue: 1, Min: 0}, {ID: 2, Queue: 2, Min: 1}, {ID: 3, Queue: 3, Min: 0}}
+	spec.PGPhase[1], spec.PGPhase[2], spec.PGPhase[3] = 3, 3, 3
+	spec.Tasks = []sched.TaskSpec{
+		{ID: 1, Job: 1, Role: 1, CPU: 1000, Mem: 2 << 20, Status: sched.SRunning, Node: 1, Preemptable: true},
+		{ID: 2, Job: 2, Role: 1, CPU: 1000, Mem: 1 << 20, Status: sched.SPending, Preemptable: true},
+		{ID: 3, Job: 3, Role: 1, CPU: 8000, Mem: 32 << 20, Status: sched.SRunning, Node: 2, Preemptable: true}}
+	spec.Tiers = [][]Plug{{{Kind: KGang, Pre: true, Rec: true}, {Kind: KCap, Pre: true, Rec: true}}}
+	spec.Actions = []int64{2}
+	return spec
+}
+
 func GenSpec(r *vh.Rng) Spec {
-	spec := Spec{PGPhase: map[int64]int64{}, JPrio: map[int64]int64{}, JSys: map[int64]bool{}, TClass: map[int64]int64{}, QRecl: map[int64]int64{}}
+	spec := newSpec()
 	nn := r.Range(1, 3)
 	spec.Actions = vh.Pick(r, [][]int64{{1}, {2}, {1}, {2}, {1, 2}, {2, 1}})
 	// three quarters of the clusters are staged: job 1 is a running low-priority victim above its gang
@@ -155,9 +252,44 @@ func GenSpec(r *vh.Rng) Spec {
 	}
 	// tier layout
 	kinds := []int64{}
-	for _, k := range []int64{KGang, KPrio, KConf, KProp} {
+	for _, k := range []int64{KGang, KPrio, KConf} {
 		if r.Chance(6, 7) {
 			kinds = append(kinds, k)
+		}
+	}
+	// at most one queue plugin
+	qplug := vh.Pick(r, []int64{0, KProp, KProp, KProp, KCap, KCap, KCap})
+	if qplug != 0 {
+		kinds = append(kinds, qplug)
+	}
+	// guarantees and (capacity) deserved amounts around what the queues hold
+	useC, useM := map[int64]int64{}, map[int64]int64{}
+	jq := map[int64]int64{}
+	for _, j := range spec.Jobs {
+		jq[j.ID] = j.Queue
+	}
+	for _, t := range spec.Tasks {
+		if t.Status == sched.SRunning || t.Status == sched.SBound {
+			useC[jq[t.Job]] += t.CPU
+			useM[jq[t.Job]] += t.Mem
+		}
+	}
+	for _, q := range spec.Queues {
+		if qplug == KCap || r.Chance(1, 5) {
+			if r.Chance(2, 5) {
+				g := [2]int64{vh.Pick(r, []int64{0, useC[q.ID] / 2, useC[q.ID] - 250, useC[q.ID] - 500, useC[q.ID]}), 0}
+				if g[0] < 0 {
+					g[0] = 0
+				}
+				if r.Chance(1, 4) {
+					g[1] = useM[q.ID] / 2
+				}
+				spec.QGuar[q.ID] = g
+			}
+		}
+		if qplug == KCap {
+			spec.QDes[q.ID] = [2]int64{vh.Pick(r, []int64{0, useC[q.ID] / 2, useC[q.ID], useC[q.ID] + 1000, 8000}),
+				vh.Pick(r, []int64{0, useM[q.ID] / 2, useM[q.ID] + (2 << 20), 32 << 20})}
 		}
 	}
 	for i := len(kinds) - 1; i > 0; i-- {
